@@ -5,6 +5,10 @@ intercepted with a scripted stream, so the distribution that is *actually drawn 
 Oracle (supported pairs): log Gamma(t; captured shape, captured scale) - target.logd(t) is constant over
 a grid of hyper-parameter values t.  Unsupported structures: "raises, or is exact".  Direct: step()
 under a scripted stream == target.sample() under the same stream (values and request log).
+Name facet: the same documented model with the hyper-parameter called every way it can relate to the likelihood's own
+parameter names; there target.logd itself is also compared with the documented posterior density written densely by
+the check (operation `target-density`), so a target whose density silently stopped being the model the user wrote
+cannot make the sampler comparison pass vacuously.
 """
 import math
 import numpy as np
@@ -34,9 +38,27 @@ RULE = ("cells = (pair family x parametrisation x dimension/geometry x interface
         "for the pairs that are approximate by design (Regularized*, LMRF) the draws cannot be judged, so acceptance of a "
         "dependence that is decidedly another function (differs from the supported form by more than 1e-8 relative on "
         "the standard grid - computed by the check from the two callables, not from the library) is itself the violation.  "
+        "A name cell = (interface x pair family x likelihood parameter the hyper-parameter enters through {Gaussian cov=1/X, "
+        "prec=X, sqrtprec=sqrt(X) I, sqrtcov=I/sqrt(X); GMRF prec=X; LMRF scale=1/X (ConjugateApprox)} x NAME X of the "
+        "hyper-parameter (= name of the Gamma prior = argument name of the callable)), the names enumerated by their relation "
+        "to the likelihood: generic (s, d), the entering parameter's OWN name (cov=lambda cov: 1/cov), a name containing it "
+        "(cov2), the name of every OTHER documented parameter of the same likelihood (mean, cov, prec, sqrtcov, sqrtprec / "
+        "location, scale), names sorting before and after all other variables of the joint (a, z); inside the cell the full "
+        "product dimension x GMRF order x way the posterior is assembled {JointDistribution(h,y), JointDistribution(y,h), "
+        "Posterior(likelihood, h), three-variable joint (w,h,y) with mean=lambda w: w conditioned on w} x prior x {generic, "
+        "zero} residual.  Two oracles: `target-density` - target.logd on the t-grid equals, up to a constant, the documented "
+        "posterior density N(data; mean, I/t) resp. N(data; mean, (t D'D)^-1) resp. prod Laplace((D data)_i; 0, 1/t) times "
+        "Gamma(t; a, b) written densely by the check (D from the index formulas of vfw.refs); `hyper-name` - the sampler "
+        "refuses, or the captured Gamma request is exact for the target's own density (pairs outside the documented ones - "
+        "sqrtprec, sqrtcov - 'raises, or is exact'; LMRF: draws not judged).  A hyper-parameter named like the location "
+        "parameter whose location was given a value is ambiguous model text: both readings (location keeps its value / "
+        "location takes the hyper-parameter's value) are accepted for target-density; when the target follows the second "
+        "one its own density has the hyper-parameter in location and dispersion, so acceptance by the approximate pair is "
+        "the violation (exact pairs: judged by the captured request as always).  "
         "A supported cell is non-trivial when the sampler accepted the target "
         "and issued a Gamma request; a refusal / near-miss cell when the same route accepts the supported control posterior "
-        "(for a near-miss cell: the d = 0 twin of the same pair and parameter)")
+        "(for a near-miss cell: the d = 0 twin of the same pair and parameter); a name cell when target.logd or a captured "
+        "request was judged")
 BOUND = {
     "quick": "Gaussian dims 1..4 x {cov=1/s, cov=1.0/s, prec=s, prec=s*ones, scalar mean with cov / prec}; GMRF 1-D "
              "N=2..5 + 2-D 2x2,3x3 x bc {zero,neumann,periodic} x order 0..2; 9 Gamma(shape,rate) x 7 mean/data kinds "
@@ -47,17 +69,31 @@ BOUND = {
              "interface): 7 pair/parameter combinations {Gaussian cov, Gaussian prec, GMRF(zero bc, order 1) prec, "
              "RegularizedGaussian cov, RegularizedGaussian prec, RegularizedGMRF prec (nonnegativity), LMRF scale} x 4 "
              "perturbation forms x sign +- x |d| in 2^-{10,20,26,40} x data scale {1, 2^10} x 2 priors x 5 routes, n = 3; "
-             "re-targeting: all 24 ordered triples of 4 posteriors on one object; 12 Direct target families",
+             "re-targeting: all 24 ordered triples of 4 posteriors on one object; 12 Direct target families; name facet: "
+             "6 (family, entering parameter) x 7..10 names (101 cells over both interfaces) x dims {1,2,3} (GMRF/LMRF {2,3}, "
+             "GMRF zero bc, order 1,2) x 4 assemblies (LMRF 3) x 2 priors x 2 residual kinds",
     "thorough": "Gaussian dims 1..10; GMRF 1-D N=2..10 + 2-D 2x2..5x5; 9 Gamma(shape,rate) x 9 mean/data kinds "
                 "(3 generic vectors, zero residual, 5 zero/integer kinds); near-miss |d| in "
-                "2^-{6,10,14,17,20,23,26,40}; otherwise as quick",
+                "2^-{6,10,14,17,20,23,26,40}; name facet: dims 1..5, all 9 Gamma(shape,rate); otherwise as quick",
 }
 ASSUMPTIONS = [
     "trusted base: numpy.random.gamma(shape, scale) draws from the Gamma law with exactly these parameters; "
     "scipy.stats.gamma.logpdf is the textbook Gamma log-density",
     "the target's own log-density (target.logd) is the comparator demanded by the statement; whether that density "
-    "is itself the documented one is C04/C20, not judged here (where the densely written textbook update differs from "
-    "the captured request although the request is proportional to target.logd, this is only counted)",
+    "is itself the documented one is judged in the name cells only (operation target-density: Gaussian, GMRF with zero "
+    "bc, LMRF with zero bc, up to an additive constant, 1e-9) and is otherwise C04/C20 (in the supported cells, where the "
+    "densely written textbook update differs from the captured request although the request is proportional to "
+    "target.logd, this is only counted)",
+    "name facet: names are valid Python identifiers from a fixed catalogue (relation classes generic / own / containing-"
+    "own / other documented parameter / alphabetical extremes); names equal to the likelihood's own variable name are "
+    "refused by JointDistribution and not enumerated; names of non-parameter attributes (geometry, name, dim), unicode or "
+    "keyword-like names are not covered; constructor+step route only (the other acceptance routes are enumerated with "
+    "the generic name in the refusal / near-miss cells); Regularized* pairs are not in the name facet (their logd is "
+    "undefined and their draws approximate by design, so neither oracle applies); GMRF with neumann / periodic bc is "
+    "not in the name facet (its documented density is improper; the supported cells cover those geometries with the "
+    "generic name)",
+    "name facet: a sub-case whose target.logd raises or is non-finite (e.g. a vector mean replaced by a length-1 value "
+    "when the hyper-parameter is named 'mean' and no geometry was given) cannot be judged and is counted",
     "GMRF with neumann/periodic bc uses a sqrt(eps)-regularised Cholesky factor: constancy demanded at 1e-5 "
     "(1e-9 elsewhere)",
     "cells whose own target.logd is non-finite on the grid (GMRF neumann order 2, some N) cannot be judged and are "
@@ -124,6 +160,19 @@ NEAR_SCALES = [0, 10]                        # data multiplied by 2^e (e > 0: ra
 NEAR_PRIORS = [(1.0, 1e-4), (3.0, 2.0)]
 NEAR_DECIDED = 1e-8     # a dependence is decidedly another function when it differs by more than this (relative) on GRID
 
+# name of the hyper-parameter (= name of the Gamma prior = argument name of the callable in the likelihood)
+#   (family, likelihood parameter the hyper-parameter enters through, documented dependence written in the name X)
+NAME_FAMS = [("gauss", "cov"), ("gauss", "prec"), ("gmrf", "prec"), ("gauss", "sqrtprec"), ("gauss", "sqrtcov"),
+             ("lmrf", "scale")]
+NAME_BODY = {"cov": "1/X", "prec": "X", "sqrtprec": "np.sqrt(X)*np.eye(n)", "sqrtcov": "np.eye(n)/np.sqrt(X)", "scale": "1/X"}
+NAME_PARAMS = {"gauss": ["mean", "cov", "prec", "sqrtcov", "sqrtprec"], "gmrf": ["mean", "prec"],
+               "lmrf": ["location", "scale"]}       # the documented parameters of each likelihood family
+NAME_LOCATION = ("mean", "location")
+NAME_LIKNAME = {"gauss": "y", "gmrf": "x", "lmrf": "x"}
+NAME_CLASS = {"gauss": "Gaussian", "gmrf": "GMRF", "lmrf": "LMRF"}
+NAME_BUILDS = ["joint(h,y)", "joint(y,h)", "posterior(lik,h)", "joint(w,h,y)"]
+NAME_PRIORS = [(0.5, 1e-4), (3.0, 2.0)]
+
 DIRECT = ["gauss-scalar-cov", "gauss-full-cov", "gauss-prec", "gauss-sqrtcov", "gauss-sqrtprec", "gmrf-zero",
           "gamma", "gamma-vector", "laplace", "normal", "lognormal", "uniform-1d"]
 
@@ -153,6 +202,13 @@ def cells(tier, seed):
         # E1 add-on: ONE sampler object re-targeted between posteriors of different structure (same dimension)
         for n in ((4,) if quick else (3, 4, 6)):
             yield {"kind": "retarget", "iface": iface, "n": n, "cat": k}
+    for iface in IFACES:
+        for (fam, key) in NAME_FAMS:
+            if fam == "lmrf" and iface == "legacy":
+                continue                                  # (LMRF, Gamma) is a pair of ConjugateApprox (stateful interface)
+            for name in _name_catalogue(fam, key):
+                yield {"kind": "name", "iface": iface, "fam": fam, "key": key, "name": name, "cat": k,
+                       "dims": list(range(1, 4) if quick else range(1, 6)), "allpriors": not quick}
     for (fam, key) in NEAR_FAMS:
         for form in NEAR_FORMS:
             yield {"kind": "near", "iface": "exp", "fam": fam, "key": key, "form": form, "cat": k, "dexp": NEAR_DEXP[tier]}
@@ -932,6 +988,246 @@ def _eval_near(cell, res):
 
 
 # ----------------------------------------------------------------------------------------
+# the NAME of the hyper-parameter: same documented model, every relation of the name to the likelihood's parameters
+# ----------------------------------------------------------------------------------------
+def _name_catalogue(fam, key):
+    """Names of the hyper-parameter, by their relation to the likelihood it enters: generic ("s", "d"), the OWN name of the
+    parameter it enters through (cov=lambda cov: 1/cov), a name that merely contains that name, the name of every OTHER
+    documented parameter of the same likelihood, names sorting before / after every other variable of the joint."""
+    return ["s", "d", key, key + "2"] + [p for p in NAME_PARAMS[fam] if p != key] + ["a", "z"]
+
+
+def _name_relation(fam, key, name):
+    if name == key:
+        return "own-parameter"
+    if name in NAME_LOCATION:
+        return "location-parameter"
+    if name in NAME_PARAMS[fam]:
+        return "other-dispersion-parameter"
+    if name.startswith(key):
+        return "contains-own-parameter"
+    if name in ("a", "z"):
+        return "alphabetical-extreme"
+    return "generic"
+
+
+def _named_fun(name, body, n):
+    """lambda <name>: <body> - written the way a user writes it; the argument name is the hyper-parameter's name."""
+    return eval("lambda %s: %s" % (name, body.replace("X", name)), {"np": np, "n": n})
+
+
+def _name_target(fam, key, name, build, n, order, mean, data, a, r):
+    """The documented model  h ~ Gamma(a, r),  likelihood(location = mean, dispersion parameter `key` = documented function
+    of h)  with the hyper-parameter called `name`, assembled the way `build` says, conditioned on the data."""
+    from cuqi.distribution import Gamma, Gaussian, GMRF, LMRF, JointDistribution, Posterior
+    f = _named_fun(name, NAME_BODY[key], n)
+    h = Gamma(a, r, name=name)
+    lik = NAME_LIKNAME[fam]
+    joint3 = build == "joint(w,h,y)"
+    loc = (lambda w: w) if joint3 else mean
+    if fam == "gauss":
+        y = Gaussian(loc, name=lik, **dict({key: f}, **({"geometry": n} if joint3 else {})))
+    elif fam == "gmrf":
+        y = GMRF(loc, prec=f, bc_type="zero", order=order, geometry=n, name=lik)
+    elif fam == "lmrf":
+        y = LMRF(0, scale=f, geometry=n, name=lik)        # the pair is documented for zero location only
+    else:
+        raise ValueError(fam)
+    if build == "joint(h,y)":
+        return JointDistribution(h, y)(**{lik: data})
+    if build == "joint(y,h)":
+        return JointDistribution(y, h)(**{lik: data})
+    if build == "posterior(lik,h)":
+        return Posterior(y.to_likelihood(data), h)
+    w = Gaussian(np.zeros(n), 1.0, name="w")              # a third variable of the joint, named between the others
+    return JointDistribution(w, h, y)(**{lik: data, "w": mean})
+
+
+def _name_ref_logd(fam, order, n, mean, data, a, r, grid, location_is_t=False):
+    """Independent reference: log of the DOCUMENTED posterior density in the hyper-parameter t (up to a constant),
+    written out densely:  Gaussian  N(data; mean, t^-1 I),  GMRF(zero bc)  N(data; mean, (t D'D)^-1),
+    LMRF  prod Laplace((D data)_i; 0, 1/t),  times Gamma(t; a, r).
+    location_is_t: the other reading of a hyper-parameter that is named like the location parameter - every entry of
+    the location takes the hyper-parameter's value."""
+    out = []
+    for t in grid:
+        m = t * np.ones(n) if location_is_t else np.asarray(mean, float)
+        d = np.asarray(data, float) - m
+        if fam == "gauss":
+            ll = 0.5 * n * math.log(t) - 0.5 * t * float(d @ d)
+        elif fam == "gmrf":
+            D = refs.fd_ref(n, "zero", order, 1)
+            q = D @ d
+            ll = 0.5 * int(np.linalg.matrix_rank(D.T @ D)) * math.log(t) - 0.5 * t * float(q @ q)
+        else:
+            D = refs.fd_ref(n, "zero", 1, 1)
+            ll = D.shape[0] * math.log(t) - t * float(np.sum(np.abs(D @ d)))
+        out.append(ll + (a - 1.0) * math.log(t) - r * t)
+    return np.array(out)
+
+
+def _same_up_to_constant(u, v, tol):
+    d = u - v
+    dc = d - d[2]
+    scale = max(1.0, float(np.max(np.abs(u - u[2]))), float(np.max(np.abs(v - v[2]))))
+    return float(np.max(np.abs(dc))) <= tol * scale, dc
+
+
+def _eval_name(cell, res):
+    """One (interface, pair family, entering parameter, NAME of the hyper-parameter): dimensions x (GMRF order) x way the
+    posterior is assembled x prior x residual kind.  Two oracles per sub-case:
+    target-density - target.logd on the t-grid equals (up to a constant) the documented posterior density written
+                     densely by the check;
+    hyper-name     - if the sampler accepts, the captured Gamma request is exact for the target's own density."""
+    import cuqi
+    iface, fam, key, name, k = cell["iface"], cell["fam"], cell["key"], cell["name"], cell["cat"]
+    rel = _name_relation(fam, key, name)
+    exact_pair = fam in ("gauss", "gmrf")
+    if fam == "lmrf":
+        comp = "cuqi.experimental.mcmc.ConjugateApprox"
+    else:
+        comp = IFACE_NAME[iface]
+    sig_s = "C10|%s|hyper-name|name=%s" % (comp, rel)
+    sig_t = "C10|cuqi.distribution.%s|target-density|name=%s" % (NAME_CLASS[fam], rel)
+    orders = (1, 2) if fam == "gmrf" else (None,)
+    builds = [b for b in NAME_BUILDS if not (fam == "lmrf" and b == "joint(w,h,y)")]
+    priors = GAMMA_PARAMS if cell["allpriors"] else NAME_PRIORS
+    tjudged = sjudged = accepted = 0
+    first = True
+    for n in cell["dims"]:
+        if n < 2 and fam != "gauss":
+            continue
+        resid = _residuals(n, k, 1)[:2]                     # a generic residual and the zero residual (data == mean)
+        if fam == "lmrf":
+            resid = [(rn, np.zeros(n), (b if rn != "zero" else np.zeros(n))) for rn, m, b in resid]
+        for order in orders:
+            for build in builds:
+                for (a, r) in priors:
+                    for rname, mean, data in resid:
+                        res.state("n=%d,order=%s,%s,a=%g,r=%g,%s" % (n, order, build, a, r, rname))
+                        focus = {"name": name, "relation": rel, "enters": "%s=lambda %s: %s" % (
+                            key, name, NAME_BODY[key].replace("X", name)), "n": n, "order": order, "build": build,
+                                 "prior": [a, r], "residual": rname}
+                        try:
+                            target = _name_target(fam, key, name, build, n, order, mean, data, a, r)
+                            res.transitions += 1
+                        except Exception as e:      # the library refuses to build this model: nothing to judge
+                            res.refused += 1
+                            res.outcomes.add("build-refused:%s" % type(e).__name__)
+                            continue
+                        tl = None
+                        try:
+                            tl = _target_logd(target, GRID)
+                            res.transitions += len(GRID)
+                        except Exception as e:
+                            res.outcomes.add("target-logd-raises:%s" % type(e).__name__)
+                            res.count("target_logd_raises")
+                        if tl is not None and not np.all(np.isfinite(tl)):
+                            res.outcomes.add("target-logd-nonfinite")
+                            res.count("target_logd_nonfinite")
+                            tl = None
+                        # ---- oracle 1: the target's density is the documented one
+                        several = False
+                        if tl is not None:
+                            res.evaluations += 1
+                            tjudged += 1
+                            ref = _name_ref_logd(fam, order, n, mean, data, a, r, GRID)
+                            ok, dc = _same_up_to_constant(tl, ref, 1e-9)
+                            if not ok and rel == "location-parameter":
+                                # ambiguous model text (the location was given a value AND the hyper-parameter carries its
+                                # name): the reading "the location takes the hyper-parameter's value" is accepted as well
+                                ref2 = _name_ref_logd(fam, order, n, mean, data, a, r, GRID, location_is_t=True)
+                                ok, _ = _same_up_to_constant(tl, ref2, 1e-9)
+                                if ok:
+                                    several = True      # ... but then the hyper-parameter occurs in location AND dispersion
+                                    res.count("target-density:location-takes-the-hyper-parameter-value")
+                            if ok:
+                                res.count("target_density_documented")
+                            else:
+                                res.fail(sig_t, "the posterior's density in the hyper-parameter is not the documented one: %s ~ "
+                                         "Gamma(%g, %g), %s(%s, %s=lambda %s: %s), n=%d%s, assembled as %s: target.logd - "
+                                         "log(documented density) varies over t=%s by %s" % (
+                                             name, a, r, NAME_CLASS[fam], "location" if fam == "lmrf" else "mean", key, name,
+                                             NAME_BODY[key].replace("X", name), n,
+                                             "" if order is None else ", order %d" % order, build, GRID, np.round(dc, 6)),
+                                         focus=focus)
+                        # ---- oracle 2: what the sampler draws from is exact for the target's own density
+                        cap = []
+                        try:
+                            if fam == "lmrf":
+                                st = Stream(gamma=lambda rec, i: (cap.append(rec), DRAW)[1])
+                                with st.installed():
+                                    smp = cuqi.experimental.mcmc.ConjugateApprox(target)
+                                    smp.step()
+                                outs, others = [smp.current_point], [q for q in st.log if q["kind"] != "gamma"]
+                            else:
+                                cap, outs, others = _run_conjugate(target, iface, extra=first)
+                            res.transitions += len(outs)
+                        except HarnessError as e:
+                            res.fail("C10|%s|hyper-name|other-randomness" % comp,
+                                     "conjugate step issued a random request other than numpy.random.gamma: %s" % e, focus=focus)
+                            continue
+                        except Exception as e:      # "when the conjugate sampler accepts a posterior": refusal is allowed
+                            res.refused += 1
+                            res.outcomes.add("sampler-refused:%s" % type(e).__name__)
+                            continue
+                        first = False
+                        accepted += 1
+                        if several:
+                            res.count("accepted-with-hyper-parameter-in-location-and-dispersion")
+                        if not exact_pair:
+                            # approximate by design: the draw cannot be judged; accepting a posterior whose own density has
+                            # the hyper-parameter in location and dispersion is what the statement excludes
+                            if several:
+                                res.fail(sig_s, "a posterior whose own density depends on the hyper-parameter %r through the "
+                                         "location and through %s (target.logd agrees with that reading, not with the "
+                                         "fixed-location one) was accepted instead of refused" % (name, key), focus=focus)
+                            res.outcomes.add("%s:accepted:%.6g" % (fam, float(np.ravel(cap[0]["shape_param"])[0]) if cap else -1))
+                            continue
+                        if tl is None:
+                            res.count("accepted-unjudgeable")
+                            continue
+                        if others:
+                            res.fail("C10|%s|hyper-name|other-randomness" % comp,
+                                     "conjugate step issued non-Gamma random requests: %s" % [o["kind"] for o in others], focus=focus)
+                        if len(cap) != len(outs) or not cap:
+                            res.fail("C10|%s|hyper-name|request-count" % comp,
+                                     "%d Gamma requests for %d draws" % (len(cap), len(outs)), focus=focus)
+                            continue
+                        for i, (rec, out) in enumerate(zip(cap, outs)):
+                            res.evaluations += 1
+                            sjudged += 1
+                            ok, what, info = _judge(rec, tl, GRID, 1e-9)
+                            if not ok:
+                                res.fail(sig_s, "hyper-parameter named %r (%s of %s, entering through %s=lambda %s: %s; n=%d%s, "
+                                         "%s, prior Gamma(%g,%g), residual %s): the distribution drawn from, Gamma(shape=%r, "
+                                         "rate=%r), is not proportional to the target's own density: log-ratio varies over "
+                                         "t=%s by %s [%s]" % (
+                                             name, rel, NAME_CLASS[fam], key, name, NAME_BODY[key].replace("X", name), n,
+                                             "" if order is None else ", order %d" % order, build, a, r, rname,
+                                             info.get("shape"), info.get("rate"), GRID, np.round(info.get("diff", 0), 6), what),
+                                         focus=dict(focus, draw_index=i), **info)
+                                break
+                            ov = np.asarray(out, float).ravel()
+                            if ov.size != 1 or ov[0] != DRAW + 0.5 * i:
+                                res.fail("C10|%s|hyper-name|draw-not-returned" % comp,
+                                         "the value returned (%r) is not the Gamma draw (%r)" % (out, DRAW + 0.5 * i), focus=focus)
+                                break
+                        res.outcomes.add("%s,%s:%.6g:%.6g" % (fam, key, float(np.ravel(cap[0]["shape_param"])[0]),
+                                                              float(np.ravel(cap[0]["scale"])[0])))
+                        if res.sample is None:
+                            res.sample = dict(focus, captured_shape=cap[0]["shape_param"], captured_scale=cap[0]["scale"],
+                                              t_grid=GRID, target_logd=tl, documented_logd=ref)
+    res.traces += 1
+    res.count("name-accepted", accepted)
+    res.count("name-judged", sjudged)
+    res.count("target-density-judged", tjudged)
+    if tjudged == 0 and sjudged == 0:
+        res.nontrivial = False
+    return res
+
+
+# ----------------------------------------------------------------------------------------
 # Direct
 # ----------------------------------------------------------------------------------------
 def _direct_target(fam, n, k):
@@ -1067,4 +1363,6 @@ def eval_cell(cell):
         return _eval_retarget(cell, res)
     if cell["kind"] == "near":
         return _eval_near(cell, res)
+    if cell["kind"] == "name":
+        return _eval_name(cell, res)
     return _eval_direct(cell, res)
